@@ -14,11 +14,15 @@ Theorem C16_client_traces_are_clean :
 Proof. exact client_accepted_is_clean_spelled. Qed.
 Print Assumptions C16_client_traces_are_clean.
 
-(* an injected fault at ANY operation index leads to failure and a closed connection *)
+(* an injected fault at ANY operation index leads to failure and a closed connection -- with one
+   exception that is not the library's: a SetDeadline(zero) issued by a proxy dialer (x/net/proxy
+   clears the deadline after its own exchange and ignores the error); the library then arms the
+   deadline again at once, and the rest of the trace is judged as usual *)
 Theorem C16_any_fault_closes :
   forall deadline early_io tr1 tr2 ok,
     client_trace_accepted deadline early_io ok (tr1 ++ HFail :: tr2) = true ->
-    ok = false /\ ends_with_close (tr1 ++ HFail :: tr2) = true.
+    (ok = false /\ ends_with_close (tr1 ++ HFail :: tr2) = true) \/
+    (crun deadline early_io CStart tr1 = Some CDoneOk /\ exists tr3, tr2 = HSetDL false :: tr3).
 Proof. exact client_fault_then_close. Qed.
 Print Assumptions C16_any_fault_closes.
 
